@@ -1,9 +1,99 @@
 import JunoModel.Common.Proto
 import JunoModel.C15.Model
-/-! Line-protocol driver for the C15 model (`lake build c15drv`). -/
+/-!
+Line-protocol driver for the C15 model (`lake build c15drv`).
+
+  cfg a b c d      choose the db/memory variant (nilUbFix lowerBoundFix prevFix nextClamp), reset
+  reset            fresh worlds
+  ub P | hasprefix K P
+  <op>             one storage operation (see harness/cmd/c15/ops.go); answer:
+                   `<mem model output> | <spec output> | <1 if the step is inside the contract else 0>`
+-/
 open Juno.Proto Juno.C15
 
-def step (s : Unit) (line : String) : Unit × String :=
+structure St where
+  cfg : Cfg
+  mem : World MBatch MIter
+  spec : World SBatch SIter
+
+def St.init (cfg : Cfg) : St := ⟨cfg, World.init, World.init⟩
+
+def showKV (x : Key × Val) : String := bytesToHex x.1 ++ "=" ++ bytesToHex x.2
+
+def showR : ROut → String
+  | .ok => "ok"
+  | .notfound => "notfound"
+  | .val v => "val:" ++ bytesToHex v
+  | .bool b => if b then "true" else "false"
+  | .errClosed => "err:closed"
+  | .errCb => "err:cb"
+  | .panic => "panic"
+  | .badHandle => "bad-handle"
+  | .list xs => "[" ++ ",".intercalate (xs.map showKV) ++ "]"
+  | .vnil => "nil"
+  | .errInvalid => "err:invalid"
+  | .badOp => "bad-op"
+
+def showOut : Out → String
+  | .r x => showR x
+  | .handle n => "h:" ++ toString n
+  | .size n => "n:" ++ toString n
+  | .pos ret cur =>
+    (if ret then "T " else "F ") ++ (match cur with | some kv => showKV kv | none => "invalid")
+  | .upd inner res =>
+    (if inner.isEmpty then "" else ";".intercalate (inner.map showR) ++ " ") ++ "-> " ++ showR res
+
+def bool? (s : String) : Option Bool :=
+  if s == "1" then some true else if s == "0" then some false else none
+
+def src? (s : String) : Option Src :=
+  if s == "db" then some .db
+  else match s.toList with
+    | 'b' :: rest => (String.ofList rest).toNat?.map .batch
+    | 's' :: rest => (String.ofList rest).toNat?.map .snap
+    | _ => none
+
+def inner? (s : String) : Option BOp :=
+  match s.splitOn ":" with
+  | ["put", k, v] => do pure (.put (← hexToBytes? k) (← hexToBytes? v))
+  | ["del", k] => do pure (.del (← hexToBytes? k))
+  | ["delrange", a, b] => do pure (.delRange (← hexToBytes? a) (← hexToBytes? b))
+  | ["get", k, f] => do pure (.get (← hexToBytes? k) (← bool? f))
+  | ["has", k] => do pure (.has (← hexToBytes? k))
+  | ["scan", p, u] => do pure (.scan (← hexToBytes? p) (← bool? u))
+  | _ => none
+
+def inners? (s : String) : Option (List BOp) :=
+  if s == "." then some [] else (s.splitOn ";").mapM inner?
+
+def op? : List String → Option Op
+  | ["put", k, v] => do pure (.put (← hexToBytes? k) (← hexToBytes? v))
+  | ["del", k] => do pure (.del (← hexToBytes? k))
+  | ["delrange", a, b] => do pure (.delRange (← hexToBytes? a) (← hexToBytes? b))
+  | ["get", s, k, f] => do pure (.get (← src? s) (← hexToBytes? k) (← bool? f))
+  | ["has", s, k] => do pure (.has (← src? s) (← hexToBytes? k))
+  | ["iter", s, p, u] => do pure (.iter (← src? s) (← hexToBytes? p) (← bool? u))
+  | ["scan", s, p, u] => do pure (.scan (← src? s) (← hexToBytes? p) (← bool? u))
+  | ["newbatch", i] => do pure (.newBatch (← bool? i))
+  | ["bput", b, k, v] => do pure (.bput (← b.toNat?) (← hexToBytes? k) (← hexToBytes? v))
+  | ["bdel", b, k] => do pure (.bdel (← b.toNat?) (← hexToBytes? k))
+  | ["bdelrange", b, s, e] => do pure (.bdelRange (← b.toNat?) (← hexToBytes? s) (← hexToBytes? e))
+  | ["bsize", b] => do pure (.bsize (← b.toNat?))
+  | ["bwrite", b] => do pure (.bwrite (← b.toNat?))
+  | ["bclose", b] => do pure (.bclose (← b.toNat?))
+  | ["snap"] => some .snap
+  | ["sclose", s] => do pure (.sclose (← s.toNat?))
+  | ["first", i] => do pure (.first (← i.toNat?))
+  | ["next", i] => do pure (.next (← i.toNat?))
+  | ["prev", i] => do pure (.prev (← i.toNat?))
+  | ["seek", i, t] => do pure (.seek (← i.toNat?) (← hexToBytes? t))
+  | ["value", i] => do pure (.value (← i.toNat?))
+  | ["iclose", i] => do pure (.iclose (← i.toNat?))
+  | ["update", i, f, ops] => do pure (.update (← bool? i) (← bool? f) (← inners? ops))
+  | ["close"] => some .close
+  | _ => none
+
+def stepLine (s : St) (line : String) : St × String :=
   match words line with
   | ["ub", p] =>
     match hexToBytes? p with
@@ -13,6 +103,19 @@ def step (s : Unit) (line : String) : Unit × String :=
     match hexToBytes? k, hexToBytes? p with
     | some k, some p => (s, toString (hasPrefix k p))
     | _, _ => (s, "bad-op")
-  | _ => (s, "bad-op")
+  | ["reset"] => (St.init s.cfg, "ok")
+  | ["cfg", a, b, c, d] =>
+    match bool? a, bool? b, bool? c, bool? d with
+    | some a, some b, some c, some d => (St.init ⟨a, b, c, d⟩, "ok")
+    | _, _, _, _ => (s, "bad-op")
+  | ws =>
+    match op? ws with
+    | none => (s, "bad-op")
+    | some op =>
+      let okc := stepOK s.cfg s.spec op
+      let rm := step (memImpl s.cfg) s.mem op
+      let rs := step specImpl s.spec op
+      ({ s with mem := rm.1, spec := rs.1 },
+        showOut rm.2 ++ " | " ++ showOut rs.2 ++ " | " ++ (if okc then "1" else "0"))
 
-def main : IO Unit := loop step ()
+def main : IO Unit := loop stepLine (St.init Cfg.asFound)
